@@ -741,9 +741,13 @@ def rule_ID(run: Run) -> RuleResult:
     n_set = 0
     for p in ips:
         guards = 0
-        for c in p.conds:
-            k, pol = Frame.norm_cond(c[2], c[1])
-            if k.startswith("call:startswith(") and k.endswith("Const('_'))") and pol is False:
+        at_ = Frame.atoms(p.conds)
+        for k, pol in at_.items():
+            if k.startswith("call:startswith(") and k.endswith(",Const('_'))") and pol is False:
+                nm_ = k[len("call:startswith("):-len(",Const('_'))")]
+                # an annotation-only member that the class body also defines is left to the second loop
+                if at_.get(f"cmp:In({nm_},dct)") is True:
+                    continue
                 guards += 1
         sets = 0
         for e in p.events:
